@@ -1,3 +1,4 @@
 import FrappyDrive.C04
+import FrappyDrive.C06
 import FrappyDrive.C20
 import FrappyDrive.Util
